@@ -146,25 +146,34 @@ func VerifC02Join() {
 		}
 		return octosql.NewInt(int64(i))
 	}
+	// LX / RX extra constant columns make the two inputs differ in width
+	lx, rx := zzverif.ParamOr("LX", 0), zzverif.ParamOr("RX", 0)
+	extra := func(row []octosql.Value, k, base int) []octosql.Value {
+		for j := 0; j < k; j++ {
+			row = append(row, octosql.NewInt(int64(base+j)))
+		}
+		return row
+	}
 	for i, row := range NDTable("l", n, keys) {
-		lrecs = append(lrecs, execution.Record{Values: append(row, payload(i))})
+		lrecs = append(lrecs, execution.Record{Values: extra(append(row, payload(i)), lx, 100)})
 	}
 	for i, row := range NDTable("r", n, keys) {
-		rrecs = append(rrecs, execution.Record{Values: append(row, payload(10+i))})
+		rrecs = append(rrecs, execution.Record{Values: extra(append(row, payload(10+i)), rx, 200)})
 	}
 	var ls, rs execution.Node = NewScriptSource(RecordsToMsgs(lrecs)), NewScriptSource(RecordsToMsgs(rrecs))
 	if kind != JoinLookup {
 		ls, rs = GateJoinInputs(NewScriptSource(RecordsToMsgs(lrecs)), NewScriptSource(RecordsToMsgs(rrecs)))
 	}
-	node := MakeJoin(kind, ls, rs, keys, cols, cols)
+	lcols, rcols := cols+lx, cols+rx
+	node := MakeJoin(kind, ls, rs, keys, lcols, rcols)
 	sink := &Sink{}
 	err := RunNode(node, sink)
 	zzverif.Reach("ran")
 	zzverif.Assert(err == nil, "no-error")
 	out := sink.Records()
 	ok := true
-	for _, x := range JoinCandidates(lrecs, rrecs, out, cols, cols) {
-		ok = zzverif.And(ok, Count(out, x) == RefJoinCount(kind, lrecs, rrecs, keys, cols, cols, x))
+	for _, x := range JoinCandidates(lrecs, rrecs, out, lcols, rcols) {
+		ok = zzverif.And(ok, Count(out, x) == RefJoinCount(kind, lrecs, rrecs, keys, lcols, rcols, x))
 	}
 	zzverif.Assert(ok, "output-is-relational-join")
 	zzverif.Assert(ValidChangelog(out), "output-changelog-valid")
